@@ -1,6 +1,7 @@
 package props
 
 import (
+	"os"
 	"fmt"
 	"go/ast"
 	"go/constant"
@@ -523,6 +524,96 @@ func c08FlexZero(c *core.Check) {
 		r.Anchor("_expandFlex: the test guarding flexBasis(…)")
 		return
 	}
+	// the three loop-carried flags, by role (not by name): basisFound is set to true on the way from a successful
+	// flexBasis; of the other two, growFound is the one whose test dominates the test of the other
+	role := map[*ssa.Phi]string{}
+	{
+		var flags []*ssa.Phi
+		core.Instrs(fn, func(in ssa.Instruction) {
+			phi, ok := in.(*ssa.Phi)
+			if !ok {
+				return
+			}
+			if bt, isB := phi.Type().Underlying().(*types.Basic); !isB || bt.Kind() != types.Bool {
+				return
+			}
+			hasFalseEntry, loopCarried := false, false
+			for i, e := range phi.Edges {
+				if k, isK := e.(*ssa.Const); isK && k.Value != nil && k.Value.String() == "false" && !phi.Block().Dominates(phi.Block().Preds[i]) {
+					hasFalseEntry = true
+				}
+				if phi.Block().Dominates(phi.Block().Preds[i]) {
+					loopCarried = true
+				}
+			}
+			if hasFalseEntry && loopCarried {
+				flags = append(flags, phi)
+			}
+		})
+		testBlocks := func(phi *ssa.Phi) []*ssa.BasicBlock {
+			var out []*ssa.BasicBlock
+			core.Instrs(fn, func(in ssa.Instruction) {
+				if ifi, ok := in.(*ssa.If); ok {
+					c := ifi.Cond
+					if u, isU := c.(*ssa.UnOp); isU && u.Op == token.NOT {
+						c = u.X
+					}
+					if c == ssa.Value(phi) {
+						out = append(out, ifi.Block())
+					}
+				}
+			})
+			return out
+		}
+		testBlock := func(phi *ssa.Phi) *ssa.BasicBlock {
+			if bs := testBlocks(phi); len(bs) > 0 {
+				return bs[0]
+			}
+			return nil
+		}
+		before := func(x, y *ssa.Phi) bool { // some test of x dominates some test of y
+			for _, a := range testBlocks(x) {
+				for _, b := range testBlocks(y) {
+					if a != b && a.Dominates(b) {
+						return true
+					}
+				}
+			}
+			return false
+		}
+		var rest []*ssa.Phi
+		for _, phi := range flags {
+			isBasis := false
+			for i, e := range phi.Edges {
+				if k, isK := e.(*ssa.Const); isK && k.Value != nil && k.Value.String() == "true" && target.Dominates(phi.Block().Preds[i]) {
+					isBasis = true
+				}
+			}
+			if isBasis {
+				role[phi] = "basisFound"
+			} else {
+				rest = append(rest, phi)
+			}
+		}
+		if len(rest) == 2 {
+			ab, ba := before(rest[0], rest[1]), before(rest[1], rest[0])
+			if ab && !ba {
+				role[rest[0]], role[rest[1]] = "growFound", "shrinkFound"
+			} else if ba && !ab {
+				role[rest[1]], role[rest[0]] = "growFound", "shrinkFound"
+			}
+		}
+		if len(role) != 3 {
+			if os.Getenv("WRVERIF_DEBUG_FLEX") != "" {
+				fmt.Fprintln(os.Stderr, "flex flags:", len(flags), len(rest), len(role))
+				for _, f := range flags {
+					fmt.Fprintln(os.Stderr, "  flag", f.Name(), f.Comment, testBlock(f))
+				}
+			}
+			r.Anchor("_expandFlex: the three loop-carried flags (basis, grow, shrink found)")
+			return
+		}
+	}
 	// the guard may be the second half of a && chain: evaluate the whole decision by asking whether the guard block is
 	// reached and its condition holds, replaying from the loop body's first test
 	for mask := 0; mask < 32; mask++ {
@@ -532,7 +623,7 @@ func c08FlexZero(c *core.Check) {
 		ev := &core.CondEval{Leaf: func(v ssa.Value) (bool, bool) {
 			switch x := v.(type) {
 			case *ssa.Phi:
-				switch x.Comment {
+				switch role[x] {
 				case "growFound":
 					return grow, true
 				case "shrinkFound":
